@@ -38,6 +38,69 @@ def inventory(src):
     return inv
 
 
+SPAN_AUDIT = os.path.join(VERIF, "contracts", "span_points.json")
+SPAN_PROPS = ["C07", "C12"]
+
+
+def span_inventory(S):
+    """(kinds whose VM arm uses the instruction's OWN span index, {kind: [functions emitting it with `None`]})
+    both computed from the working tree: the arms of `interpret` in the expanded source that mention
+    `current_ip`, and every `self.chunk.add(Instruction::K(..), None)` site of the compiler"""
+    exp = S("expanded")
+    it = exp.find("fn", "vm::interpreter::VirtualMachine::interpret")
+    need = set()
+    for a in it["nodes"]:
+        if a["kind"] == "arm" and a["pat_text"].startswith("Instruction::") and "current_ip" in exp.text(*a["body"]):
+            need |= set(re.findall(r"Instruction::(\w+)", a["pat_text"]))
+    comp = S("tera/src/parsing/compiler.rs")
+    none_sites = {}
+    nsites = 0
+    for f in comp.items:
+        if f["kind"] != "fn":
+            continue
+        for m in f["nodes"]:
+            if m["kind"] == "methodcall" and m["method"] == "add" and m["receiver_text"].endswith("chunk") and len(m["args"]) == 2:
+                nsites += 1
+                a0 = comp.text(*m["args"][0]["range"])
+                a1 = comp.text(*m["args"][1]["range"]).strip()
+                k = re.match(r"\s*Instruction::(\w+)", a0)
+                if k and a1 == "None":
+                    none_sites.setdefault(k.group(1), []).append(f["path"])
+    return need, none_sites, nsites
+
+
+def run_spans(prop, S, outdir, rebaseline=False):
+    from driver import Result
+
+    if prop not in SPAN_PROPS + ["ALL"]:
+        return [], []
+    meta = {"unit": "engine_f", "props": SPAN_PROPS, "what": "instructions whose VM arm uses their own span are never emitted without one"}
+    try:
+        need, none_sites, nsites = span_inventory(S)
+    except Exception as e:  # noqa: BLE001
+        return [Result("frame/spans/own_span_present", "F", "undecided", f"inventory failed: {e}", 0, meta)], []
+    cur = {k: len(v) for k, v in none_sites.items() if k in need}
+    if rebaseline or not os.path.exists(SPAN_AUDIT):
+        with open(SPAN_AUDIT, "w") as f:
+            json.dump(cur, f, indent=1, sort_keys=True)
+    audited = json.load(open(SPAN_AUDIT))
+    results = []
+    if nsites < 20 or len(need) < 10:
+        results.append(Result("frame/spans/own_span_present", "F", "undecided", f"vacuity guard: {nsites} emit sites, {len(need)} span-using arms found", 0, meta))
+    else:
+        new = [(k, n) for k, n in cur.items() if audited.get(k, 0) == 0]
+        more = [(k, audited[k], n) for k, n in cur.items() if audited.get(k, 0) and n > audited[k]]
+        if new:
+            k0 = new[0][0]
+            results.append(Result("frame/spans/own_span_present", "F", "false", "emitted with `None` although the VM arm uses the instruction's own span (rendering_error! does `expand_span(..).expect(\"to have a span for error\")` on it): " + ", ".join(f"Instruction::{k} in {sorted(set(none_sites[k]))}" for k, _ in new), 0, dict(meta, fn=none_sites[k0][0])))
+        elif more:
+            results.append(Result("frame/spans/own_span_present", "F", "undecided", "frame changed, re-audit: more span-less sites of an audited kind: " + ", ".join(f"{k}: {a} -> {n}" for k, a, n in more), 0, meta))
+        else:
+            results.append(Result("frame/spans/own_span_present", "F", "verified", "", 0, meta))
+    info = {"unit": "engine_f_spans", "engine": "frame audit (vx inventory)", "cmd": "arms of interpret that mention current_ip (expanded source) vs `chunk.add(Instruction::K, None)` sites of parsing/compiler.rs vs contracts/span_points.json", "wall_s": 0.0, "smt_s": 0.0, "trusted": [], "functions": ["parsing::compiler::Compiler::*", "vm::interpreter::VirtualMachine::interpret"], "assumptions": ["engine F (spans): the audited span-less sites were judged by reading (their values are consumed by the instruction that follows and cannot reach a failing operation): " + json.dumps(audited, sort_keys=True) + "; sites whose span is a variable are not judged"]}
+    return results, [info]
+
+
 def run_for(prop, S, outdir, rebaseline=False):
     from driver import Result
 
